@@ -243,6 +243,11 @@ OPN2::OPN2() :
 
     // Initialize blank instruments banks
     m_insBanks.clear();
+#ifdef OPNMIDI_VERIF
+    m_verifTap = NULL;
+    m_verifTapData = NULL;
+    m_verifNoteTap = NULL;
+#endif
 }
 
 OPN2::~OPN2()
@@ -259,16 +264,25 @@ bool OPN2::setupLocked()
 
 void OPN2::writeReg(size_t chip, uint8_t port, uint8_t index, uint8_t value)
 {
+#ifdef OPNMIDI_VERIF
+    if(m_verifTap) m_verifTap(m_verifTapData, 0, chip, port, index, value);
+#endif
     m_chips[chip]->writeReg(port, index, value);
 }
 
 void OPN2::writeRegI(size_t chip, uint8_t port, uint32_t index, uint32_t value)
 {
+#ifdef OPNMIDI_VERIF
+    if(m_verifTap) m_verifTap(m_verifTapData, 0, chip, port, static_cast<uint8_t>(index), static_cast<uint8_t>(value));
+#endif
     m_chips[chip]->writeReg(port, static_cast<uint8_t>(index), static_cast<uint8_t>(value));
 }
 
 void OPN2::writePan(size_t chip, uint32_t index, uint32_t value)
 {
+#ifdef OPNMIDI_VERIF
+    if(m_verifTap) m_verifTap(m_verifTapData, 1, chip, 0, static_cast<uint16_t>(index), static_cast<uint8_t>(value));
+#endif
     m_chips[chip]->writePan(static_cast<uint16_t>(index), static_cast<uint8_t>(value));
 }
 
@@ -299,6 +313,9 @@ void OPN2::noteOn(size_t c, double tone)
         coef = 309.12412; break;
     }
     hertz *= coef;
+#ifdef OPNMIDI_VERIF
+    if(m_verifNoteTap) m_verifNoteTap(m_verifTapData, c, tone, hertz);
+#endif
 
     size_t      chip;
     uint8_t     port;
